@@ -589,3 +589,16 @@ META["trusted_base"] = list(META.get("trusted_base", [])) + [
     "units c19.* are the C19 units of the same name (specs/C19/more.c, more_state.h) with their trusted base",
     "specs/C15/tfunc.c: affinity_data::get_pu_mask / topology::get_machine_affinity_mask / set_thread_affinity_mask as recording stubs "
     "(their own contracts: none.get_pu_mask, topo.set_thread_affinity_mask); error_code as an int; PIKA_LOG_ENABLED arbitrary"]
+
+
+# ---- C11 units reused: the per-OS-thread worker identity (thread_num_tss.cpp) -- which worker / pool a thread IS (C10: placement and
+# ---- "runs on a worker of that pool" are stated in these numbers; C15: the global number indexes the affinity masks)
+_c11 = {"UNITS": [], "VX_NO_REUSE": True}
+if not globals().get("VX_NO_REUSE"):
+    exec(compile(open("/verif/specs/C11/spec.py").read(), "/verif/specs/C11/spec.py", "exec"), _c11)
+for _u in _c11["UNITS"]:
+    if _u.name.startswith("tss."):
+        _u.name = "c11." + _u.name
+        _u.template = "../C11/" + _u.template
+        UNITS.append(_u)
+META["trusted_base"] = list(META.get("trusted_base", [])) + ["units c11.tss.* are the C11 units of the same name (specs/C11/tss.c)"]
